@@ -122,6 +122,7 @@ package encrypt
 //@ func (*Filter).hmacSha256(ctx, data, opt) (out, err)
 //@   requires ef != nil && held(ef.l) == 0
 //@   assigns ev, ctxdone, elem:any, elem:uint8, held, lockacq
+//@   ensures C16/the-key-is-derived-afresh-for-every-value-never-cached: err == nil ==> callsTo("NewDerivedReader") == old(callsTo("NewDerivedReader")) + 1
 //@   ensures C09+C16/a-failing-key-derivation-fails-the-call: err == nil ==> failedCalls("NewDerivedReader") == 0
 //@   ensures never-copies: events("sys:deepcopy") == old(events("sys:deepcopy"))
 //@   ensures C16/missing-data-or-wrapper-is-an-error: (data == nil || (len(opt) == 0 && ef.Wrapper == nil)) ==> err != nil && out == ""
